@@ -240,7 +240,7 @@ Definition check (c : case) : verdict :=
     let '(s_code, s_vals, s_prop) := single_i in
     first_of [
       viol (list_eqb N.eqb sp props_i && vals_eqb sfin fin) 5;
-      viol (negb fresh || (P >? 2000) || windows_ok (S k) (Z.to_nat P) (map v_power fin) props_i) 6;
+      viol (if negb fresh || (P >? 2000) then true else windows_ok (S k) (Z.to_nat P) (map v_power fin) props_i) 6;
       viol (within (3 * P + 1) fin) 7;
       mism (match mstart with
             | None => false
